@@ -23,9 +23,6 @@ var _ tree = (*treePipeline)(nil)
 
 func newTreePipeline(cfg *config) tree {
 	growerFactory := func(lastNodeFormat, intermedialNodeFormat branchFormat, dryrun bool, encode encode) growerPipeline {
-		if encode != encodeDefault {
-			return newNopGrowerPipeline()
-		}
 		return newGrowerPipeline(lastNodeFormat, intermedialNodeFormat, dryrun)
 	}
 
